@@ -32,6 +32,7 @@ type MemConn struct {
 	writes      [][]byte
 	writeErr    error
 	clientClose bool
+	holdWrites  bool // a Write records its octets at once but returns only when the hold is lifted
 
 	readDeadline  time.Time
 	writeDeadline time.Time
@@ -115,7 +116,19 @@ func (c *MemConn) Write(p []byte) (int, error) {
 	}
 	c.writes = append(c.writes, append([]byte(nil), p...))
 	c.cond.Broadcast()
+	for c.holdWrites && !c.clientClose {
+		c.cond.Wait()
+	}
 	return len(p), nil
+}
+
+// HoldWrites makes later Writes of the client block after their octets were recorded (the harness sees the query, the
+// writer does not come back yet) until the hold is lifted: what the writer finds when it returns is up to the harness.
+func (c *MemConn) HoldWrites(on bool) {
+	c.mu.Lock()
+	c.holdWrites = on
+	c.cond.Broadcast()
+	c.mu.Unlock()
 }
 
 func (c *MemConn) Close() error {
